@@ -259,6 +259,16 @@ func main() {
 		r.FeedBytes(b, []float64{0, 0.3, 0.7, 1}[cfg.Rand.Intn(4)], cfg.Rand)
 		add(r, "events", sizeTag(g.W, g.H))
 	}
-	cfg.Write("C05", "histories from New(): first resize to a size from 1x1 upward, then chunks of grammar-generated child output (printable narrow/wide/zero-width text, C0, ESC, CSI with parameters omitted/0/1/size-1/size/size+1/huge/overflowing, SGR, OSC/APC/DCS strings) or raw fuzzed bytes, plus directed histories: SGR lists cut at every length around the extended colours 38/48/58 (selector omitted/0/2/5/unknown, semicolon, colon and mixed syntax, at the start and at the tail of the list) and OSC 8 hyperlinks whose targets and parameters are drawn from an alphabet containing \";\", \":\" and \"=\", parsed by the real ansi.Parser and fed one sequence at a time through the unmodified update path, with resizes between chunks and a random event-drain schedule; after every step the observation (outcome, size, cursor, deferred-wrap flag, margins, events pending, length of every row of both grids) and every 9th step plus the last one the complete state (both grids, pen, modes, tab stops, charsets, saved cursors); non-trivial = at least three different control functions in the history",
+	// state that survives a resize and is used after it (saved cursors of both screens, tab
+	// stops, margins, modes), see survive.go
+	nSurv := 120
+	if cfg.Thorough() {
+		nSurv = 2000
+	}
+	for i := 0; i < nSurv; i++ {
+		r, tags := survivorHistory(cfg.Rand)
+		add(r, "resize-survivor", tags...)
+	}
+	cfg.Write("C05", "histories from New(): first resize to a size from 1x1 upward, then chunks of grammar-generated child output (printable narrow/wide/zero-width text, C0, ESC, CSI with parameters omitted/0/1/size-1/size/size+1/huge/overflowing, SGR, OSC/APC/DCS strings) or raw fuzzed bytes, plus directed histories: SGR lists cut at every length around the extended colours 38/48/58 (selector omitted/0/2/5/unknown, semicolon, colon and mixed syntax, at the start and at the tail of the list) and OSC 8 hyperlinks whose targets and parameters are drawn from an alphabet containing \";\", \":\" and \"=\", and resize-survivor histories (a cursor position at 0 / new size-2..new size+1 / old size-2..old size-1 saved into the primary or the alternate screen's slot by ESC 7, CSI s or CSI ?1049h, optionally with a tab stop, scroll region, origin / insert / autowrap mode or pen, optionally leaving the screen, then one or two resizes that shrink rows, columns or both, go to 1x1, grow or keep the size, then ESC 8, CSI u, CSI ?1049l or a tab on the same or the other screen, at once followed by operations that index the grid at the cursor: erase, insert / delete line and character, repeat, IRM print, wide print, index / reverse index, tabs), parsed by the real ansi.Parser and fed one sequence at a time through the unmodified update path, with resizes between chunks and a random event-drain schedule; after every step the observation (outcome, size, cursor, deferred-wrap flag, margins, events pending, length of every row of both grids) and every 9th step plus the last one the complete state (both grids, pen, modes, tab stops, charsets, saved cursors); non-trivial = at least three different control functions in the history",
 		[]*hx.Stream{s, ds}, map[string]interface{}{"outcomes": outcomes}, direct)
 }
